@@ -114,73 +114,6 @@ theorem render_cons (r : Bool) (st : List Str) (n : Str) :
     cases r <;> simp [render, hst, joinSep_append_single _ hrev]
 
 /-- `p` is its own `Clean` and is neither `/` nor `.` -/
-def Good (p : Str) : Prop := clean p = p ∧ stackOf p ≠ []
-
-theorem Good.ne_nil {p : Str} (h : Good p) : p ≠ [] := by
-  intro e
-  exact h.2 (by rw [e, stackOf_nil])
-
-theorem good_step (p n : Str) (hg : Good p) (hn : ValidName n) :
-    join2 p n = p ++ SEP :: n ∧ Good (p ++ SEP :: n) := by
-  have hp := hg.ne_nil
-  have hc : clean (p ++ SEP :: n) = p ++ SEP :: n := by
-    unfold clean
-    rw [isRooted_append p _ hp, stackOf_append_name p n hp hn, render_cons, if_neg hg.2]
-    have := hg.1
-    unfold clean at this
-    rw [this]
-  exact ⟨hc, hc, by rw [stackOf_append_name p n hp hn]; simp⟩
-
-theorem good_root_step (b n : Str) (hg : Good b) (hn : ValidName n) :
-    join2 (b ++ [SEP]) n = b ++ SEP :: n := by
-  have hp := hg.ne_nil
-  unfold join2 clean
-  have e : b ++ [SEP] ++ SEP :: n = b ++ SEP :: SEP :: n := by simp
-  rw [e, isRooted_append b _ hp, stackOf_append_sep_name b n hp hn, render_cons, if_neg hg.2]
-  have := hg.1
-  unfold clean at this
-  rw [this]
-
-theorem slash_step (n : Str) (hn : ValidName n) : join2 [SEP] n = SEP :: n ∧ Good (SEP :: n) := by
-  have h1 : splitSep (SEP :: SEP :: n) = [[], [], n] := by
-    simp [splitSep, splitSep_noSep n hn.2.2.2]
-  have h2 : splitSep (SEP :: n) = [[], n] := by
-    simp [splitSep, splitSep_noSep n hn.2.2.2]
-  have hs : stackOf (SEP :: n) = [n] := by
-    simp [stackOf, h2, cleanStep_valid _ _ _ hn, cleanStep_empty]
-  refine ⟨?_, ?_, by rw [hs]; simp⟩
-  · simp [join2, clean, stackOf, h1, isRooted, cleanStep_valid _ _ _ hn, cleanStep_empty, render, joinSep]
-  · simp [clean, hs, isRooted, render, joinSep]
-
-theorem walkPath_good (p : Str) (rel : List Str) (hg : Good p) (hrel : rel ≠ [])
-    (hv : ∀ n ∈ rel, ValidName n) : walkPath p rel = p ++ SEP :: joinSep rel := by
-  induction rel generalizing p with
-  | nil => exact absurd rfl hrel
-  | cons n rest ih =>
-    have hn := hv n (by simp)
-    obtain ⟨hj, hg'⟩ := good_step p n hg hn
-    cases rest with
-    | nil => simp [walkPath, hj, joinSep]
-    | cons m ms =>
-      have := ih (p ++ SEP :: n) hg' (by simp) (fun x hx => hv x (by simp [hx]))
-      simp only [walkPath, List.foldl_cons] at this ⊢
-      rw [hj, this, joinSep_cons_cons]
-      simp
-
-/-! ### canonical spellings of the input directory -/
-
-def specBase (inp : Str) : Str := if inp.getLast? = some SEP then inp.dropLast else inp
-
-/-- the spellings of `-i <directory>` for which the path strings reported by the directory walk
-start with `formattedInName`: `/`, or `B` or `B/` where `B` is its own `filepath.Clean`, is not
-`.`, and does not end with a dot -/
-def SpecOK (inp : Str) : Prop :=
-  inp = [SEP] ∨
-  (clean (specBase inp) = specBase inp ∧ stackOf (specBase inp) ≠ [] ∧
-    (specBase inp).getLast? ≠ some DOT ∧ (specBase inp).getLast? ≠ some SEP)
-
-instance (inp : Str) : Decidable (SpecOK inp) := by unfold SpecOK; infer_instance
-
 theorem SEP_ne_DOT : SEP ≠ DOT := by decide
 
 theorem dropLast_snoc_of_getLast? {α : Type} (l : List α) (a : α) (h : l.getLast? = some a) :
@@ -193,107 +126,6 @@ theorem dropLast_snoc_of_getLast? {α : Type} (l : List α) (a : α) (h : l.getL
     | cons y ys =>
       have h' : (y :: ys).getLast? = some a := by simpa [List.getLast?_cons_cons] using h
       simpa using ih h'
-
-theorem specBase_cases (inp : Str) :
-    (inp = specBase inp ∧ inp.getLast? ≠ some SEP) ∨ inp = specBase inp ++ [SEP] := by
-  unfold specBase
-  by_cases h : inp.getLast? = some SEP
-  · right
-    rw [if_pos h]
-    exact (dropLast_snoc_of_getLast? inp SEP h).symm
-  · left
-    rw [if_neg h]
-    exact ⟨rfl, h⟩
-
-theorem addSep_snoc (b : Str) : addSep (b ++ [SEP]) = b ++ [SEP] := by
-  simp [addSep]
-
-theorem addSep_of_ne (b : Str) (h0 : b ≠ []) (h : b.getLast? ≠ some SEP) : addSep b = b ++ [SEP] := by
-  simp [addSep, h0, h]
-
-theorem finOf_snoc (b : Str) : finOf (b ++ [SEP]) = b ++ [SEP] := by
-  have : SEP ≠ DOT := SEP_ne_DOT
-  simp [finOf, this]
-
-theorem finOf_of_ne (b : Str) (h1 : b.getLast? ≠ some DOT) (h2 : b.getLast? ≠ some SEP) :
-    finOf b = b ++ [SEP] := by
-  simp [finOf, h1, h2]
-
-theorem isNonRec_of_last_ne (inp : Str) (h : inp.getLast? ≠ some DOT) : isNonRec inp = false := by
-  unfold isNonRec
-  by_cases hl : inp.length > 2
-  · have : inp.drop (inp.length - 2) ≠ [SEP, DOT] := by
-      intro e
-      apply h
-      have h2 : inp = inp.take (inp.length - 2) ++ [SEP, DOT] := by
-        rw [← e, List.take_append_drop]
-      rw [h2]
-      simp
-    simp [this]
-  · simp [hl]
-
-/-- the root handed to `filepath.Walk` and `formattedInName` for a recursive run -/
-theorem spec_root_fin (inp : Str) (h : SpecOK inp) :
-    isNonRec inp = false ∧ addSep inp = finOf inp ∧
-    (inp = [SEP] ∨ (Good (specBase inp) ∧ finOf inp = specBase inp ++ [SEP])) := by
-  rcases h with h | ⟨hc, hs, hd, hsl⟩
-  · subst h
-    refine ⟨by decide, by decide, Or.inl rfl⟩
-  · have hg : Good (specBase inp) := ⟨hc, hs⟩
-    rcases specBase_cases inp with ⟨e, hl⟩ | e
-    · have hd' : inp.getLast? ≠ some DOT := by rw [e]; exact hd
-      refine ⟨isNonRec_of_last_ne inp hd', ?_, Or.inr ⟨hg, ?_⟩⟩
-      · rw [finOf_of_ne inp hd' hl, addSep_of_ne inp (by rw [e]; exact hg.ne_nil) hl]
-      · rw [finOf_of_ne inp hd' hl, ← e]
-    · have hd' : inp.getLast? ≠ some DOT := by
-        rw [e]; simp [SEP_ne_DOT]
-      refine ⟨isNonRec_of_last_ne inp hd', ?_, Or.inr ⟨hg, ?_⟩⟩
-      · rw [e, addSep_snoc, finOf_snoc]
-      · rw [e, finOf_snoc]
-        simp [specBase]
-
-/-- under a canonical spelling the walk reports `formattedInName ++ relative path` -/
-theorem walk_spec (inp : Str) (rel : List Str) (h : SpecOK inp) (hrel : rel ≠ [])
-    (hv : ∀ n ∈ rel, ValidName n) : walkPath (addSep inp) rel = finOf inp ++ joinSep rel := by
-  obtain ⟨_, hroot, hcase⟩ := spec_root_fin inp h
-  cases rel with
-  | nil => exact absurd rfl hrel
-  | cons n rest =>
-    have hn := hv n (by simp)
-    rcases hcase with e | ⟨hg, hfin⟩
-    · subst e
-      obtain ⟨hj, hg'⟩ := slash_step n hn
-      have hroot' : addSep [SEP] = [SEP] := by decide
-      have hfin' : finOf [SEP] = [SEP] := by decide
-      rw [hroot', hfin']
-      cases rest with
-      | nil => simp [walkPath, hj, joinSep]
-      | cons m ms =>
-        have := walkPath_good (SEP :: n) (m :: ms) hg' (by simp) (fun x hx => hv x (by simp [hx]))
-        simp only [walkPath, List.foldl_cons] at this ⊢
-        rw [hj, this, joinSep_cons_cons]
-        simp
-    · rw [hroot, hfin]
-      have hj := good_root_step (specBase inp) n hg hn
-      obtain ⟨_, hg'⟩ := good_step (specBase inp) n hg hn
-      cases rest with
-      | nil => simp [walkPath, hj, joinSep]
-      | cons m ms =>
-        have := walkPath_good (specBase inp ++ SEP :: n) (m :: ms) hg' (by simp) (fun x hx => hv x (by simp [hx]))
-        simp only [walkPath, List.foldl_cons] at this ⊢
-        rw [hj, this, joinSep_cons_cons]
-        simp
-
-/-! ### the task list of a run on a directory -/
-
-theorem oNameSingle_eq : @oNameSingle = @oName := rfl
-
-/-- both branches (`nbFiles == 1` and the loop) compute the same names -/
-theorem mkTasks_eq (decomp isDir special : Bool) (fin fout : Str) (files : List Str) :
-    mkTasks decomp isDir special fin fout files =
-      planOf (mapTasks (oName decomp isDir special fin fout) files) := by
-  unfold mkTasks
-  rw [oNameSingle_eq, ite_self]
 
 theorem nonRec_shape (inp : Str) (h : isNonRec inp = true) :
     targetOf inp = inp.dropLast ∧ finOf inp = inp.dropLast ∧ ∃ x, inp = x ++ [SEP, DOT] := by
@@ -309,8 +141,7 @@ theorem nonRec_shape (inp : Str) (h : isNonRec inp = true) :
   unfold finOf
   have h1 : (inp.take (inp.length - 2) ++ [SEP, DOT]).getLast? = some DOT := by simp
   have h2 : (inp.take (inp.length - 2) ++ [SEP, DOT]).length > 1 := by simp
-  simp only [h1, h2, e, and_self, if_true]
-  simp
+  simp [h1, e]
 
 /-- the directory the entries of which are listed -/
 def rootOf (inp : Str) : Str := if isNonRec inp then targetOf inp else addSep inp
@@ -330,84 +161,6 @@ def DirInput (fs : FS) (a : Args) : Prop :=
 theorem targetOf_rec (inp : Str) (h : isNonRec inp = false) : targetOf inp = inp := by
   simp [targetOf, h]
 
-theorem plan_dir_inv (fs : FS) (a : Args) (ts : List (Str × Str)) (hd : DirInput fs a)
-    (h : plan fs a = .tasks ts) :
-    ∃ kept : List (List Str × Kind), kept.Sublist (fs.tree (rootOf a.inp)) ∧
-      (isNonRec a.inp = true → ∀ e ∈ kept, e.1.length = 1) ∧
-      mapTasks (oName a.decomp true (isSpecial a.out) (finOf a.inp) (foutEff a))
-        (kept.map fun e => pathOf a.inp e.1) = some ts := by
-  obtain ⟨⟨n, hn⟩, ⟨m, hm⟩⟩ := hd
-  unfold plan at h
-  split at h
-  · simp at h
-  · -- the file list
-    have hcf : ∀ files, createFileList fs (targetOf a.inp) (!isNonRec a.inp) a.noLinks a.noDot = .ok files →
-        files = [] ∨ ∃ kept : List (List Str × Kind), kept.Sublist (fs.tree (rootOf a.inp)) ∧
-          (isNonRec a.inp = true → ∀ e ∈ kept, e.1.length = 1) ∧
-          files = kept.map fun e => pathOf a.inp e.1 := by
-      intro files hf
-      unfold createFileList at hf
-      rw [hm] at hf
-      simp only [Kind.isLink] at hf
-      split at hf
-      · left; injection hf with hf; exact hf.symm
-      · by_cases hnr : isNonRec a.inp = true
-        · right
-          simp only [hnr, Bool.not_true] at hf
-          simp at hf
-          refine ⟨_, List.filter_sublist (l := fs.tree (rootOf a.inp)) (p := fun e =>
-              e.1.length == 1 && !(a.noDot && isDotName (joinSep e.1)) && keepKind a.noLinks e.2), ?_, ?_⟩
-          · intro _ e he
-            have := (List.mem_filter.mp he).2
-            simp at this
-            exact this.1.1
-          · rw [← hf]
-            simp [rootOf, pathOf, hnr]
-        · have hnr' : isNonRec a.inp = false := by simpa using hnr
-          right
-          simp only [hnr', Bool.not_false] at hf
-          simp at hf
-          rw [targetOf_rec _ hnr'] at hf
-          refine ⟨_, List.filter_sublist (l := fs.tree (rootOf a.inp)) (p := fun e =>
-              !(a.noDot && isDotName (walkPath (addSep a.inp) e.1)) && keepKind a.noLinks e.2), ?_, ?_⟩
-          · intro hc; rw [hnr'] at hc; exact absurd hc (by simp)
-          · rw [← hf]
-            simp [rootOf, pathOf, hnr']
-    split at h
-    · simp at h
-    · simp at h
-    · rename_i files hfiles
-      rcases hcf files hfiles with he | ⟨kept, hsub, hlen, hfl⟩
-      · simp [he] at h
-      · refine ⟨kept, hsub, hlen, ?_⟩
-        split at h
-        · simp at h
-        · rw [hn] at h
-          simp only [if_true] at h
-          rw [← hfl]
-          by_cases ho : a.out ≠ [] ∧ ¬ isSpecial a.out = true
-          · rw [if_pos ho] at h
-            split at h
-            · simp at h
-            · split at h
-              · simp at h
-              · rw [mkTasks_eq] at h; unfold planOf at h
-                split at h
-                · simp at h
-                · rename_i ts' hts
-                  injection h with h
-                  rw [← h]
-                  simpa [foutEff, ho] using hts
-          · rw [if_neg ho] at h
-            rw [mkTasks_eq] at h; unfold planOf at h
-            split at h
-            · simp at h
-            · rename_i ts' hts
-              injection h with h
-              rw [← h]
-              have hf : foutEff a = a.out := by unfold foutEff; rw [if_neg ho]
-              rw [hf]; exact hts
-
 /-! ### name mapping -/
 
 theorem KNZ_length : KNZ.length = 4 := rfl
@@ -420,9 +173,6 @@ theorem dName_knz (p : Str) : dName (p ++ KNZ) = p := by
   simp [KNZ_length, h2]
 
 theorem dName_cName (p : Str) : dName (cName p) = p := dName_knz p
-
-theorem sliceFrom_append (x s : Str) : sliceFrom (x ++ s) x.length = some s := by
-  simp [sliceFrom]
 
 def unKnz (s : Str) : Str := s.take (s.length - 4)
 
@@ -451,35 +201,7 @@ theorem valid_append_knz (n : Str) (h : ValidName n) : ValidName (n ++ KNZ) := b
     · exact h.2.2.2 hm
     · revert hm; decide
 
-theorem oName_c (sp : Bool) (fin fout s : Str) :
-    oName false true sp fin fout (fin ++ s) =
-      if fout = [] then some (fin ++ s ++ KNZ)
-      else if sp = false then some (fout ++ s ++ KNZ) else some fout := by
-  unfold oName
-  by_cases h : fout = []
-  · simp [h]
-  · cases sp <;> simp [h, sliceFrom_append]
-
-theorem oName_d (sp : Bool) (fin fout q : Str) :
-    oName true true sp fin fout (fin ++ q ++ KNZ) =
-      if fout = [] then some (fin ++ q)
-      else if sp = false then some (fout ++ q) else some fout := by
-  unfold oName
-  simp only [if_true, dName_knz, List.append_nil]
-  by_cases h : fout = []
-  · simp [h]
-  · cases sp <;> simp [h, sliceFrom_append]
-
-theorem mapTasks_total (f : Str → Option Str) (g : Str → Str) (l : List Str)
-    (h : ∀ i ∈ l, f i = some (g i)) : mapTasks f l = some (l.map fun i => (i, g i)) := by
-  induction l with
-  | nil => rfl
-  | cons i is ih =>
-    unfold mapTasks
-    rw [h i (by simp), ih (fun j hj => h j (by simp [hj]))]
-    simp
-
-/-! ### shape of the task list -/
+/-! ### hypotheses about the directory walk -/
 
 /-- what the directory walk is assumed to report below the root: every entry once, under names
 that are directory entry names -/
@@ -490,52 +212,9 @@ def TreeOK (l : List (List Str × Kind)) : Prop :=
 def KnzTree (l : List (List Str × Kind)) : Prop :=
   ∀ e ∈ l, ∃ init stem, e.1 = init ++ [stem ++ KNZ] ∧ ValidName stem ∧ ∀ n ∈ init, ValidName n
 
-theorem pathOf_shape (inp : Str) (rel : List Str) (hs : SpecOK inp ∨ isNonRec inp = true)
-    (hrel : rel ≠ []) (hv : ∀ n ∈ rel, ValidName n) : pathOf inp rel = finOf inp ++ joinSep rel := by
-  unfold pathOf
-  by_cases hnr : isNonRec inp = true
-  · rw [if_pos hnr]
-    obtain ⟨h1, h2, _⟩ := nonRec_shape inp hnr
-    rw [h1, h2]
-  · rcases hs with hs | hs
-    · rw [if_neg hnr]; exact walk_spec inp rel hs hrel hv
-    · exact absurd hs hnr
-
-/-- where the outputs go -/
-def pre (a : Args) : Str := if a.out = [] then finOf a.inp else foutOf a.out
-
 theorem foutOf_ne_nil (o : Str) (h : o ≠ []) : foutOf o ≠ [] := by
   unfold foutOf
   split <;> simp [h]
-
-theorem tasks_char_c (fs : FS) (a : Args) (ts : List (Str × Str)) (hc : a.decomp = false)
-    (hsp : isSpecial a.out = false) (hd : DirInput fs a) (hs : SpecOK a.inp ∨ isNonRec a.inp = true)
-    (ht : TreeOK (fs.tree (rootOf a.inp))) (h : plan fs a = .tasks ts) :
-    ∃ kept : List (List Str × Kind), kept.Sublist (fs.tree (rootOf a.inp)) ∧
-      ts = kept.map fun e => (finOf a.inp ++ joinSep e.1, pre a ++ joinSep e.1 ++ KNZ) := by
-  obtain ⟨kept, hsub, _, hm⟩ := plan_dir_inv fs a ts hd h
-  refine ⟨kept, hsub, ?_⟩
-  have hshape : ∀ e ∈ kept, pathOf a.inp e.1 = finOf a.inp ++ joinSep e.1 := fun e he =>
-    pathOf_shape a.inp e.1 hs (ht.2 e (hsub.subset he)).1 (ht.2 e (hsub.subset he)).2
-  have hmap : (kept.map fun e => pathOf a.inp e.1) = kept.map fun e => finOf a.inp ++ joinSep e.1 :=
-    List.map_congr_left hshape
-  rw [hmap, hc, hsp] at hm
-  have htot := mapTasks_total (oName false true false (finOf a.inp) (foutEff a))
-    (fun i => pre a ++ i.drop (finOf a.inp).length ++ KNZ)
-    (kept.map fun e => finOf a.inp ++ joinSep e.1) (by
-      intro i hi
-      obtain ⟨e, _, rfl⟩ := List.mem_map.mp hi
-      rw [oName_c]
-      by_cases ho : a.out = []
-      · simp [foutEff, pre, ho]
-      · have : foutOf a.out ≠ [] := foutOf_ne_nil _ ho
-        simp [foutEff, pre, ho, hsp, this])
-  rw [htot] at hm
-  injection hm with hm
-  rw [← hm, List.map_map]
-  apply List.map_congr_left
-  intro e _
-  simp
 
 theorem knz_rel (e : List Str × Kind) (init : List Str) (stem : Str) (he : e.1 = init ++ [stem ++ KNZ])
     (hs : ValidName stem) (hi : ∀ n ∈ init, ValidName n) :
@@ -549,47 +228,6 @@ theorem knz_rel (e : List Str × Kind) (init : List Str) (stem : Str) (he : e.1 
   · exact hi n hn
   · have : n = stem ++ KNZ := by simpa using hn
     rw [this]; exact valid_append_knz stem hs
-
-theorem tasks_char_d (fs : FS) (a : Args) (ts : List (Str × Str)) (hc : a.decomp = true)
-    (hsp : isSpecial a.out = false) (hd : DirInput fs a) (hs : SpecOK a.inp ∨ isNonRec a.inp = true)
-    (hk : KnzTree (fs.tree (rootOf a.inp))) (h : plan fs a = .tasks ts) :
-    ∃ kept : List (List Str × Kind), kept.Sublist (fs.tree (rootOf a.inp)) ∧
-      ts = kept.map fun e => (finOf a.inp ++ joinSep e.1, pre a ++ unKnz (joinSep e.1)) := by
-  obtain ⟨kept, hsub, _, hm⟩ := plan_dir_inv fs a ts hd h
-  refine ⟨kept, hsub, ?_⟩
-  have hshape : ∀ e ∈ kept, pathOf a.inp e.1 = finOf a.inp ++ joinSep e.1 := by
-    intro e he
-    obtain ⟨init, stem, h1, h2, h3⟩ := hk e (hsub.subset he)
-    obtain ⟨k1, k2, _, _⟩ := knz_rel e init stem h1 h2 h3
-    exact pathOf_shape a.inp e.1 hs k1 k2
-  have hmap : (kept.map fun e => pathOf a.inp e.1) = kept.map fun e => finOf a.inp ++ joinSep e.1 :=
-    List.map_congr_left hshape
-  rw [hmap, hc, hsp] at hm
-  have htot := mapTasks_total (oName true true false (finOf a.inp) (foutEff a))
-    (fun i => pre a ++ unKnz (i.drop (finOf a.inp).length))
-    (kept.map fun e => finOf a.inp ++ joinSep e.1) (by
-      intro i hi
-      obtain ⟨e, he, rfl⟩ := List.mem_map.mp hi
-      obtain ⟨init, stem, h1, h2, h3⟩ := hk e (hsub.subset he)
-      obtain ⟨_, _, k3, k4⟩ := knz_rel e init stem h1 h2 h3
-      have e1 : finOf a.inp ++ joinSep e.1 = finOf a.inp ++ joinSep (init ++ [stem]) ++ KNZ := by
-        rw [k3]; simp
-      rw [e1, oName_d]
-      have e2 : (finOf a.inp ++ joinSep (init ++ [stem]) ++ KNZ).drop (finOf a.inp).length
-          = joinSep (init ++ [stem]) ++ KNZ := by simp
-      rw [e2, unKnz_knz]
-      by_cases ho : a.out = []
-      · simp [foutEff, pre, ho]
-      · have : foutOf a.out ≠ [] := foutOf_ne_nil _ ho
-        simp [foutEff, pre, ho, hsp, this])
-  rw [htot] at hm
-  injection hm with hm
-  rw [← hm, List.map_map]
-  apply List.map_congr_left
-  intro e _
-  simp
-
-/-! ### the properties -/
 
 theorem nodup_map_on {α β : Type} (f : α → β) (l : List α) (hl : l.Nodup)
     (hf : ∀ x ∈ l, ∀ y ∈ l, f x = f y → x = y) : (l.map f).Nodup := by
@@ -621,110 +259,6 @@ theorem knz_tree_ok (tree : List (List Str × Kind)) (hk : KnzTree tree) :
 theorem noSep_of_valid {r : List Str} (h : ∀ n ∈ r, ValidName n) : ∀ c ∈ r, SEP ∉ c :=
   fun c hc => (h c hc).2.2.2
 
-/-- compression: distinct inputs, distinct outputs -/
-theorem paths_injective_c (fs : FS) (a : Args) (ts : List (Str × Str)) (hc : a.decomp = false)
-    (hsp : isSpecial a.out = false) (hd : DirInput fs a) (hs : SpecOK a.inp ∨ isNonRec a.inp = true)
-    (ht : TreeOK (fs.tree (rootOf a.inp))) (h : plan fs a = .tasks ts) :
-    (ts.map (·.1)).Nodup ∧ (ts.map (·.2)).Nodup := by
-  obtain ⟨kept, hsub, rfl⟩ := tasks_char_c fs a ts hc hsp hd hs ht h
-  obtain ⟨hnd, hv⟩ := kept_rels _ kept hsub ht
-  have e1 : (kept.map fun e => (finOf a.inp ++ joinSep e.1, pre a ++ joinSep e.1 ++ KNZ)).map (·.1)
-      = (kept.map (·.1)).map fun r => finOf a.inp ++ joinSep r := by simp [List.map_map]
-  have e2 : (kept.map fun e => (finOf a.inp ++ joinSep e.1, pre a ++ joinSep e.1 ++ KNZ)).map (·.2)
-      = (kept.map (·.1)).map fun r => pre a ++ joinSep r ++ KNZ := by simp [List.map_map]
-  rw [e1, e2]
-  constructor
-  · apply nodup_map_on _ _ hnd
-    intro x hx y hy hxy
-    exact joinSep_inj x y (hv x hx).1 (hv y hy).1 (noSep_of_valid (hv x hx).2) (noSep_of_valid (hv y hy).2)
-      (List.append_cancel_left hxy)
-  · apply nodup_map_on _ _ hnd
-    intro x hx y hy hxy
-    have := List.append_cancel_right hxy
-    exact joinSep_inj x y (hv x hx).1 (hv y hy).1 (noSep_of_valid (hv x hx).2) (noSep_of_valid (hv y hy).2)
-      (List.append_cancel_left this)
-
-/-- decompression of a tree in which every name ends with `.knz`: distinct inputs, distinct outputs -/
-theorem paths_injective_d (fs : FS) (a : Args) (ts : List (Str × Str)) (hc : a.decomp = true)
-    (hsp : isSpecial a.out = false) (hd : DirInput fs a) (hs : SpecOK a.inp ∨ isNonRec a.inp = true)
-    (hnd : ((fs.tree (rootOf a.inp)).map (·.1)).Nodup) (hk : KnzTree (fs.tree (rootOf a.inp)))
-    (h : plan fs a = .tasks ts) :
-    (ts.map (·.1)).Nodup ∧ (ts.map (·.2)).Nodup := by
-  obtain ⟨kept, hsub, rfl⟩ := tasks_char_d fs a ts hc hsp hd hs hk h
-  have ht : TreeOK (fs.tree (rootOf a.inp)) := ⟨hnd, knz_tree_ok _ hk⟩
-  obtain ⟨hnd', hv⟩ := kept_rels _ kept hsub ht
-  have e1 : (kept.map fun e => (finOf a.inp ++ joinSep e.1, pre a ++ unKnz (joinSep e.1))).map (·.1)
-      = (kept.map (·.1)).map fun r => finOf a.inp ++ joinSep r := by simp [List.map_map]
-  have e2 : (kept.map fun e => (finOf a.inp ++ joinSep e.1, pre a ++ unKnz (joinSep e.1))).map (·.2)
-      = (kept.map (·.1)).map fun r => pre a ++ unKnz (joinSep r) := by simp [List.map_map]
-  rw [e1, e2]
-  have hknz : ∀ r ∈ kept.map (·.1), joinSep r = unKnz (joinSep r) ++ KNZ := by
-    intro r hr
-    obtain ⟨e, he, rfl⟩ := List.mem_map.mp hr
-    obtain ⟨init, stem, h1, h2, h3⟩ := hk e (hsub.subset he)
-    obtain ⟨_, _, k3, k4⟩ := knz_rel e init stem h1 h2 h3
-    rw [k4]; exact k3
-  constructor
-  · apply nodup_map_on _ _ hnd'
-    intro x hx y hy hxy
-    exact joinSep_inj x y (hv x hx).1 (hv y hy).1 (noSep_of_valid (hv x hx).2) (noSep_of_valid (hv y hy).2)
-      (List.append_cancel_left hxy)
-  · apply nodup_map_on _ _ hnd'
-    intro x hx y hy hxy
-    have := List.append_cancel_left hxy
-    have hj : joinSep x = joinSep y := by rw [hknz x hx, hknz y hy, this]
-    exact joinSep_inj x y (hv x hx).1 (hv y hy).1 (noSep_of_valid (hv x hx).2) (noSep_of_valid (hv y hy).2) hj
-
-/-- no entry of the tree is named like the compressed form of another one -/
-def NoShadow (l : List (List Str × Kind)) : Prop :=
-  ∀ e ∈ l, ∀ e' ∈ l, joinSep e'.1 ≠ joinSep e.1 ++ KNZ
-
-/-- no entry of the input tree lies below the output directory -/
-def OutApart (a : Args) (l : List (List Str × Kind)) : Prop :=
-  ∀ e ∈ l, ¬ (foutOf a.out <+: finOf a.inp ++ joinSep e.1)
-
-theorem paths_output_not_input_c (fs : FS) (a : Args) (ts : List (Str × Str)) (hc : a.decomp = false)
-    (hsp : isSpecial a.out = false) (hd : DirInput fs a) (hs : SpecOK a.inp ∨ isNonRec a.inp = true)
-    (ht : TreeOK (fs.tree (rootOf a.inp)))
-    (hin : a.out = [] → NoShadow (fs.tree (rootOf a.inp)))
-    (hout : a.out ≠ [] → OutApart a (fs.tree (rootOf a.inp)))
-    (h : plan fs a = .tasks ts) : ∀ t ∈ ts, ∀ u ∈ ts, t.2 ≠ u.1 := by
-  obtain ⟨kept, hsub, rfl⟩ := tasks_char_c fs a ts hc hsp hd hs ht h
-  intro t htm u hum heq
-  obtain ⟨e, he, rfl⟩ := List.mem_map.mp htm
-  obtain ⟨e', he', rfl⟩ := List.mem_map.mp hum
-  simp only at heq
-  by_cases ho : a.out = []
-  · simp only [pre, ho, if_true, List.append_assoc] at heq
-    exact hin ho e (hsub.subset he) e' (hsub.subset he') (List.append_cancel_left heq).symm
-  · simp only [pre, ho, if_false] at heq
-    apply hout ho e' (hsub.subset he')
-    rw [← heq, List.append_assoc]
-    exact List.prefix_append _ _
-
-theorem paths_output_not_input_d (fs : FS) (a : Args) (ts : List (Str × Str)) (hc : a.decomp = true)
-    (hsp : isSpecial a.out = false) (hd : DirInput fs a) (hs : SpecOK a.inp ∨ isNonRec a.inp = true)
-    (hk : KnzTree (fs.tree (rootOf a.inp)))
-    (hin : a.out = [] → NoShadow (fs.tree (rootOf a.inp)))
-    (hout : a.out ≠ [] → OutApart a (fs.tree (rootOf a.inp)))
-    (h : plan fs a = .tasks ts) : ∀ t ∈ ts, ∀ u ∈ ts, t.2 ≠ u.1 := by
-  obtain ⟨kept, hsub, rfl⟩ := tasks_char_d fs a ts hc hsp hd hs hk h
-  intro t htm u hum heq
-  obtain ⟨e, he, rfl⟩ := List.mem_map.mp htm
-  obtain ⟨e', he', rfl⟩ := List.mem_map.mp hum
-  simp only at heq
-  by_cases ho : a.out = []
-  · simp only [pre, ho, if_true] at heq
-    have h1 := List.append_cancel_left heq
-    obtain ⟨init, stem, k1, k2, k3⟩ := hk e (hsub.subset he)
-    obtain ⟨_, _, j3, j4⟩ := knz_rel e init stem k1 k2 k3
-    apply hin ho e' (hsub.subset he') e (hsub.subset he)
-    rw [← h1, j4]; exact j3
-  · simp only [pre, ho, if_false] at heq
-    apply hout ho e' (hsub.subset he')
-    rw [← heq]
-    exact List.prefix_append _ _
-
 /-- `o` is `dir` followed by a relative path made of directory entry names -/
 def Under (dir o : Str) : Prop :=
   ∃ comps : List Str, comps ≠ [] ∧ (∀ c ∈ comps, ValidName c) ∧ o = dir ++ joinSep comps
@@ -733,127 +267,9 @@ theorem rel_split (r : List Str) (h : r ≠ []) : ∃ init last, r = init ++ [la
   refine ⟨r.dropLast, r.getLast h, ?_⟩
   exact (List.dropLast_concat_getLast h).symm
 
-theorem paths_within_outdir_c (fs : FS) (a : Args) (ts : List (Str × Str)) (hc : a.decomp = false)
-    (hsp : isSpecial a.out = false) (ho : a.out ≠ []) (hd : DirInput fs a)
-    (hs : SpecOK a.inp ∨ isNonRec a.inp = true) (ht : TreeOK (fs.tree (rootOf a.inp)))
-    (h : plan fs a = .tasks ts) : ∀ t ∈ ts, Under (foutOf a.out) t.2 := by
-  obtain ⟨kept, hsub, rfl⟩ := tasks_char_c fs a ts hc hsp hd hs ht h
-  intro t htm
-  obtain ⟨e, he, rfl⟩ := List.mem_map.mp htm
-  obtain ⟨hne, hv⟩ := ht.2 e (hsub.subset he)
-  obtain ⟨init, last, hr⟩ := rel_split e.1 hne
-  refine ⟨init ++ [last ++ KNZ], by simp, ?_, ?_⟩
-  · intro c hcm
-    rcases List.mem_append.mp hcm with hcm | hcm
-    · exact hv c (by rw [hr]; simp [hcm])
-    · have : c = last ++ KNZ := by simpa using hcm
-      rw [this]; exact valid_append_knz last (hv last (by rw [hr]; simp))
-  · simp only [pre, ho, if_false]
-    rw [joinSep_snoc_append, ← hr, List.append_assoc]
-
-theorem paths_within_outdir_d (fs : FS) (a : Args) (ts : List (Str × Str)) (hc : a.decomp = true)
-    (hsp : isSpecial a.out = false) (ho : a.out ≠ []) (hd : DirInput fs a)
-    (hs : SpecOK a.inp ∨ isNonRec a.inp = true) (hk : KnzTree (fs.tree (rootOf a.inp)))
-    (h : plan fs a = .tasks ts) : ∀ t ∈ ts, Under (foutOf a.out) t.2 := by
-  obtain ⟨kept, hsub, rfl⟩ := tasks_char_d fs a ts hc hsp hd hs hk h
-  intro t htm
-  obtain ⟨e, he, rfl⟩ := List.mem_map.mp htm
-  obtain ⟨init, stem, k1, k2, k3⟩ := hk e (hsub.subset he)
-  obtain ⟨_, _, _, j4⟩ := knz_rel e init stem k1 k2 k3
-  refine ⟨init ++ [stem], by simp, ?_, ?_⟩
-  · intro c hcm
-    rcases List.mem_append.mp hcm with hcm | hcm
-    · exact k3 c hcm
-    · have : c = stem := by simpa using hcm
-      rw [this]; exact k2
-  · simp only [pre, ho, if_false]
-    rw [j4]
-
-/-- compressing the entry `rel` of a tree into a directory and decompressing the result into
-another directory gives back the same relative path, and the decompressor looks for exactly the
-name the compressor wrote -/
-theorem paths_roundtrip (inT outC inC outD : Str) (rel : List Str) (hrel : rel ≠ [])
-    (hv : ∀ n ∈ rel, ValidName n) (hT : SpecOK inT) (hC : SpecOK inC)
-    (hsame : foutOf outC = finOf inC) (hoC : outC ≠ []) (hoD : outD ≠ []) :
-    ∃ init last, rel = init ++ [last] ∧
-      oName false true false (finOf inT) (foutOf outC) (walkPath (addSep inT) rel)
-        = some (walkPath (addSep inC) (init ++ [last ++ KNZ])) ∧
-      oName true true false (finOf inC) (foutOf outD) (walkPath (addSep inC) (init ++ [last ++ KNZ]))
-        = some (foutOf outD ++ joinSep rel) := by
-  obtain ⟨init, last, hr⟩ := rel_split rel hrel
-  refine ⟨init, last, hr, ?_, ?_⟩
-  · have hv' : ∀ n ∈ init ++ [last ++ KNZ], ValidName n := by
-      intro c hcm
-      rcases List.mem_append.mp hcm with hcm | hcm
-      · exact hv c (by rw [hr]; simp [hcm])
-      · have : c = last ++ KNZ := by simpa using hcm
-        rw [this]; exact valid_append_knz last (hv last (by rw [hr]; simp))
-    rw [walk_spec inT rel hT hrel hv, walk_spec inC _ hC (by simp) hv', oName_c,
-      if_neg (foutOf_ne_nil _ hoC), joinSep_snoc_append, ← hr, hsame]
-    simp
-  · have hv' : ∀ n ∈ init ++ [last ++ KNZ], ValidName n := by
-      intro c hcm
-      rcases List.mem_append.mp hcm with hcm | hcm
-      · exact hv c (by rw [hr]; simp [hcm])
-      · have : c = last ++ KNZ := by simpa using hcm
-        rw [this]; exact valid_append_knz last (hv last (by rw [hr]; simp))
-    rw [walk_spec inC _ hC (by simp) hv', joinSep_snoc_append, ← hr, ← List.append_assoc, oName_d,
-      if_neg (foutOf_ne_nil _ hoD)]
-    simp
-
-/-- in place: the decompressor maps the name the compressor wrote back to the input name -/
-theorem paths_roundtrip_inplace (isDir sp : Bool) (fin i : Str) :
-    oName false isDir sp fin [] i = some (i ++ KNZ) ∧ oName true isDir sp fin [] (i ++ KNZ) = some i := by
-  simp [oName, dName_knz]
-
-/-! ### a single file as input -/
-
 /-- the input is a regular file, for both `Stat` calls the tool makes on it -/
 def FileInput (fs : FS) (a : Args) : Prop :=
   (∃ n, fs.stat a.inp = some (.file, n)) ∧
   (∃ m, (if a.noLinks then fs.lstat (targetOf a.inp) else fs.stat (targetOf a.inp)) = some (.file, m))
-
-theorem plan_file (fs : FS) (a : Args) (ts : List (Str × Str)) (hf : FileInput fs a)
-    (h : plan fs a = .tasks ts) :
-    ∃ o, ts = [(targetOf a.inp, o)] ∧
-      oName a.decomp false (isSpecial a.out) [] a.out (targetOf a.inp) = some o := by
-  obtain ⟨⟨n, hn⟩, ⟨m, hm⟩⟩ := hf
-  unfold plan at h
-  split at h
-  · simp at h
-  · have hcf : ∀ files, createFileList fs (targetOf a.inp) (!isNonRec a.inp) a.noLinks a.noDot = .ok files →
-        files = [] ∨ files = [targetOf a.inp] := by
-      intro files hfl
-      unfold createFileList at hfl
-      rw [hm] at hfl
-      simp only [Kind.isLink] at hfl
-      split at hfl
-      · left; injection hfl with hfl; exact hfl.symm
-      · right; simp at hfl; exact hfl.symm
-    split at h
-    · simp at h
-    · simp at h
-    · rename_i files hfiles
-      rcases hcf files hfiles with he | he
-      · simp [he] at h
-      · split at h
-        · simp at h
-        · rw [hn] at h
-          simp only [show (Kind.file = Kind.dir) = False from by simp, if_false] at h
-          split at h
-          · simp at h
-          · rw [mkTasks_eq] at h; unfold planOf at h
-            split at h
-            · simp at h
-            · rename_i ts' hts
-              injection h with h
-              rw [he] at hts
-              unfold mapTasks at hts
-              split at hts
-              · rename_i o r ho hr
-                simp [mapTasks] at hr
-                injection hts with hts
-                exact ⟨o, by rw [← h, ← hts, hr], ho⟩
-              · simp at hts
 
 end Kanzi.CliPaths
